@@ -31,14 +31,14 @@ MODES = ["call", "call", "call", "graph", "solve_shapes", "solve_axes", "matches
 
 
 @st.composite
-def c09_case(draw, tier="quick"):
+def c09_case(draw, tier="quick", k=0):
     # "simple" calls (no flattening / permutation) hand the caller's buffers to the backend functions
     # unchanged, which is where an in-place hazard (out= aliasing, in-place sort/put) would bite
     if draw(st.integers(0, 9)) == 0:
         # n-ary scalar operations with >=3 aligned operands (third positional argument of a ufunc is out=)
         base = draw(G.call_case(ops=G.ELEMENTWISE_NARY, quick=True, simple=True, min_inputs=3))
     else:
-        base = draw(G.call_case(quick=(tier == "quick"), simple=draw(st.booleans())))
+        base = draw(G.stratified_case(k, quick=(tier == "quick"), simple=draw(st.booleans())))
     layouts = [draw(st.sampled_from(LAYOUTS)) for _ in base["ins"]]
     for i, d in enumerate(base["data"]):
         if d["kind"] == "coord" and layouts[i] == "broadcast":
@@ -232,7 +232,7 @@ def replay_case(case):
 
 
 def make_strategy(tier, k):
-    return c09_case(tier)
+    return c09_case(tier, k)
 
 
 def worker(k, n, tier, seed, known_buckets, extra):
